@@ -20,7 +20,7 @@ func init() { register(&Spec{ID: "C04", Targets: allTargets, Run: runC04}) }
 
 func runC04(c *core.Ctx) {
 	runFixtures(c, "valid")
-	c.Explain("'For all strings' collapses to 'on every path the gate dominates the effect'. Decided from source on linux, windows and js/wasm builds, for every function of the module with a string or []string parameter (entry points = exported functions and methods): (R04.1) no value derived from a name parameter reaches a primitive sink — a Store/Transaction call made outside the Store/Transaction implementations, any stdlib os function, an insertion into the mount table — unless the parameter is known to satisfy ValidPath there (dominating ValidPath-true edge; success or ErrNotExist edge of a rejecting call that received the name unchanged; memo hit in a table whose every insertion key is valid; exit of a loop that returns on the first invalid element); (R04.2) no transformed value (path.Join/Dir/Clean, Trim*, slicing, concatenation) derived from a possibly-invalid name is passed as a path to a file-system interface or returned as the sub-path of a Mount implementation — passing the name unchanged is delegation and is the callee's obligation (A1); (R04.3) under the assumption 'this name is invalid' every reachable return of an FS method carries an ErrInvalid-class error (built from ErrInvalid, or the error of a rejecting call on the unchanged name, possibly wrapped), for each name of two-name operations independently; (R04.4) every construction of an ErrInvalid error in a function that has a name in scope is control-dependent on a ValidPath-false edge, a comparison of a name with a constant, or a relational test between two names — never on a test of the characters of a name; (R04.5) only package os imports path/filepath, no other package uses a constant separator other than \"/\" on names, and on targets whose separator is not '/' the OS mapping rejects names containing it. (R04.6) prefix tests between names in keyvalue and mount are on element boundaries. NOT claimed: 'state unchanged' beyond 'no sink executed'; foreign FS implementations (A1).")
+	c.Explain("'For all strings' collapses to 'on every path the gate dominates the effect'. Decided from source on linux, windows and js/wasm builds, for every function of the module with a string or []string parameter (entry points = exported functions and methods): (R04.1) no value derived from a name parameter reaches a primitive sink — a Store/Transaction call made outside the Store/Transaction implementations, any stdlib os function, an insertion into the mount table — unless the parameter is known to satisfy ValidPath there (dominating ValidPath-true edge; success or ErrNotExist edge of a rejecting call that received the name unchanged; memo hit in a table whose every insertion key is valid; exit of a loop that returns on the first invalid element); (R04.2) no transformed value (path.Join/Dir/Clean, Trim*, slicing, concatenation) derived from a possibly-invalid name is passed as a path to a file-system interface or returned as the sub-path of a Mount implementation — passing the name unchanged is delegation and is the callee's obligation (A1); (R04.3) under the assumption 'this name is invalid' every reachable return of an FS method carries an ErrInvalid-class error (built from ErrInvalid, or the error of a rejecting call on the unchanged name, possibly wrapped), for each name of two-name operations independently; (R04.4) every construction of an ErrInvalid error in a function that has a name in scope is control-dependent on a ValidPath-false edge, a comparison of a name with a constant, or a relational test between two names — never on a test of the characters of a name; (R04.5) only package os imports path/filepath, no other package uses a constant separator other than \"/\" on names, and on targets whose separator is not '/' the OS mapping rejects names containing it. (R04.6) prefix tests between names in keyvalue and mount are on element boundaries. (R04.7) hackpadfs.ValidPath returns exactly io/fs.ValidPath of its argument. NOT claimed: 'state unchanged' beyond 'no sink executed'; foreign FS implementations (A1).")
 	c.Assume("A1: a method invoked through an io/fs.FS / hackpadfs.*FS interface value rejects names that are not ValidPath with an ErrInvalid-class error before any effect (proved here for every FS type of the module; io/fs contract for foreign ones)",
 		"A2: path.Dir/Base/Join/Clean of valid paths are valid; stdlib behaves as documented",
 		"A3: names returned by a directory listing are single valid path elements",
